@@ -227,6 +227,8 @@ def create_equation_from_terms(terms):
     """
     if len(terms) == 0:
         return ''
+    # Work on a copy; do not modify the caller's list.
+    terms = list(terms)
     for i in range(0, len(terms)):
         term = terms[i].strip()
         if not term[0] in ('+', '-'):
